@@ -21,6 +21,12 @@ type built struct {
 	cfg      *ucfg.Config
 	desc     string
 	exactSrc string // source of the operation that delivered the value at the fault path
+	uopts    []ucfg.Option // options every read of the configuration needs (resolvers serving expanded values)
+	// insideExpanded: the value that has to carry the source lies strictly
+	// inside a list or object built from expanded text
+	insideExpanded bool
+	// expandedItself: that value is the list or object built from the text
+	expandedItself bool
 }
 
 type route struct {
@@ -259,8 +265,40 @@ func settable(v *model.Node) bool {
 	return false
 }
 
+// leafSettable: the container is not empty and all its leaves can be written
+// by setters.
+func leafSettable(v *model.Node) bool {
+	if v.Kind != model.KSub {
+		return settable(v)
+	}
+	if len(v.D)+len(v.A) == 0 {
+		return false
+	}
+	for _, c := range v.D {
+		if c == nil || !leafSettable(c) {
+			return false
+		}
+	}
+	for _, c := range v.A {
+		if c == nil || !leafSettable(c) {
+			return false
+		}
+	}
+	return true
+}
+
 // planRoutes lists the routes applicable to a fault at p. V is the valid tree.
-func planRoutes(r *rand.Rand, V *model.Node, p []seg, f fault, base string) []route {
+func planRoutes(r *rand.Rand, V *model.Node, p []seg, f fault, base string, topStruct bool) []route {
+	out := planStoredRoutes(r, V, p, f, base)
+	wantLen := len(p)
+	if f.wantRel != "" {
+		wantLen++
+	}
+	return append(out, expandRoutes(r, V, p, wantLen, f, base, topStruct)...)
+}
+
+// planStoredRoutes: the routes that end with the tree stored as data.
+func planStoredRoutes(r *rand.Rand, V *model.Node, p []seg, f fault, base string) []route {
 	var out []route
 	src := func(k int) string { return base + "-op" + strconv.Itoa(k) }
 
@@ -322,6 +360,38 @@ func planRoutes(r *rand.Rand, V *model.Node, p []seg, f fault, base string) []ro
 		c, desc, err := mergeChain([]*model.Node{T, op2}, []string{src(0), src(1)}, nil, "merge-under")
 		return built{cfg: c, desc: desc, exactSrc: src(0)}, err
 	}})
+
+	// (ii) merges under a replacing policy: an earlier operand holds other
+	// data at the same places (the valid tree, every list on the fault path one
+	// element longer), the later operand replaces it. With ReplaceValues
+	// everything comes from the later operand; with ReplaceArrValues
+	// dictionaries are merged key by key and lists are replaced as a whole.
+	for _, arrOnly := range []bool{false, true} {
+		arrOnly := arrOnly
+		name, pol := "merge-replace", []ucfg.Option{ucfg.ReplaceValues}
+		if arrOnly {
+			name, pol = "merge-replace-arr", []ucfg.Option{ucfg.ReplaceArrValues}
+		}
+		out = append(out, route{name, func(T *model.Node) (built, error) {
+			if n := getNode(T, p); n.IsNil() || (n.Kind == model.KSub && len(n.D)+len(n.A) == 0) {
+				// what a null or an empty collection replaces is a matter of the merge rules
+				return built{}, errNotApplicable
+			}
+			old := V.Copy()
+			for j := 0; j <= len(p); j++ {
+				if n := getNode(old, p[:j]); n != nil && n.Kind == model.KSub && len(n.A) > 0 {
+					n.A = append(n.A, n.A[0].Copy())
+				}
+			}
+			c, desc, err := mergeChain([]*model.Node{old, T}, []string{src(0), src(1)}, pol, name)
+			exact := src(1)
+			if o, n := getNode(old, p), getNode(T, p); arrOnly && o != nil && n != nil && o.Kind == model.KSub && n.Kind == model.KSub && !o.HasA && !n.HasA {
+				// a dictionary merged key by key belongs to both operands
+				exact = ""
+			}
+			return built{cfg: c, desc: desc, exactSrc: exact}, err
+		}})
+	}
 
 	// the same three constructions with the input spelled in dotted keys:
 	// folded namespaces and lists are created implicitly by the library
@@ -514,6 +584,54 @@ func planRoutes(r *rand.Rand, V *model.Node, p []seg, f fault, base string) []ro
 					return built{desc: desc}, &callErr{e.entry, e.err, desc}
 				}
 				return built{desc: desc}, err
+			}
+			return built{cfg: c, desc: desc, exactSrc: src(1)}, nil
+		}})
+	}
+
+	// (iii) a faulty list or object is written leaf by leaf with setters
+	// using full paths: the containers in between exist only implicitly
+	if f.val != nil && f.val.Kind == model.KSub && leafSettable(f.val) {
+		form := r.Intn(2)
+		out = append(out, route{"set-leaves", func(T *model.Node) (built, error) {
+			v := getNode(T, p)
+			if !settable(v) || (v.Kind == model.KSub && !leafSettable(v)) {
+				return built{}, errNotApplicable
+			}
+			if last.isIdx && last.idx != len(getNode(T, p[:len(p)-1]).A)-1 {
+				return built{}, errNotApplicable // only the last element of a list can be left out
+			}
+			start := without(T, p, nil)
+			desc := fmt.Sprintf("set-leaves: NewFrom[%s](%s)", src(0), start)
+			c, err := ucfg.NewFrom(start.ToGo(), baseOpts(src(0))...)
+			if err != nil {
+				return built{desc: desc}, &callErr{"NewFrom", err, desc}
+			}
+			var werr error
+			var walk func(n *model.Node, q []seg)
+			walk = func(n *model.Node, q []seg) {
+				if werr != nil {
+					return
+				}
+				if n.Kind != model.KSub {
+					d, err := setAt(c, q, n, src(1), form)
+					desc += " ; " + d + "[" + src(1) + "]"
+					werr = err
+					return
+				}
+				for _, k := range n.SortedKeys() {
+					walk(n.D[k], appendSeg(q, seg{key: k}))
+				}
+				for i, e := range n.A {
+					walk(e, appendSeg(q, seg{idx: i, isIdx: true}))
+				}
+			}
+			walk(v, p)
+			if werr != nil {
+				if e, ok := werr.(*entryErr); ok {
+					return built{desc: desc}, &callErr{e.entry, e.err, desc}
+				}
+				return built{desc: desc}, werr
 			}
 			return built{cfg: c, desc: desc, exactSrc: src(1)}, nil
 		}})
